@@ -17,6 +17,7 @@ typedef struct S TS; TS ts; TS *pts;
 enum E { K1, K2 = 5 } e; enum E e2;
 int f0(void); int f1(int); int g2(int, double); int fv(int, ...); void fvoid(void); double fd(double); int fp1(int *); int fvp(void *); int fcc(const char *); int fs(struct S);
 int (*fp)(int); void (*fpv)(void); int *fpr(void); struct S fst(void);
+int f2p(int, int *); void *lk(const char *, void *); int fv3(int, char *, int *, ...); int g3p(int *, double, struct S *); void cb2(int (*)(int), void (*)(void));
 typedef int row_t[3]; typedef row_t grid_t[2];
 struct M { double m[4][4]; row_t cell[3]; grid_t gr; struct { int g[2][2]; union { char u[2][2][2]; int w; } iu; } in; char name[8]; struct S as[2]; } ma, mb, *pma;
 union UM { int k[2][3]; struct M sm; row_t r; } uma, umb, *puma; struct M fma(void); int fmm(struct M); int fum(union UM);
@@ -70,7 +71,9 @@ def tests():
     call_stmts = [
         "f0();", "f1(1);", "f1(i);", "f1(c);", "f1(d);", "f1('a');", "f1(K1);", "f1(f0());", "f1(f1(1));", "g2(1, 2.0);", "g2(i, i);", "g2(c, f);", "fv(1);", "fv(1, 2);", "fv(1, 2.0, \"s\", p);", "fv(i, c, s, f);", "fvoid();", "fd(1);", "fd(f);", "fd(fd(d));",
         "fp1(p);", "fp1(a);", "fp1(&i);", "fp1(0);", "fp1(vp);", "fp1(tp);", "fp1(&st.m);", "fp1(st.arr);", "fvp(p);", "fvp(pc);", "fvp(vp);", "fvp(0);", "fvp(&st);", "fvp(ps);", "fvp(a);", "fvp(\"s\");", "fcc(pc);", "fcc(ccp);", "fcc(\"lit\");", "fcc(ca);", "fcc(0);",
-        "i = f0();", "d = fd(1.0);", "i = f1(2) + f0();", "p = fpr();", "*fpr() = 1;", "fpr()[0];", "fp = f1;", "fp = &f1;", "fp = &(f1);", "fp == &f1;", "fp = &*fp;", "fp = *&f1;", "(&f1)(1);", "{ int (*lf)(int) = &f1; lf; }", "fpv = &fvoid;", "fp(1);", "(*fp)(1);", "(**fp)(1);", "i = fp(2);", "fpv = fvoid;", "fpv();", "(*fpv)();", "fp == f1;", "fp != 0;", "fp ? 1 : 0;", "!fp;", "fp = 0;",
+        "i = f0();", "d = fd(1.0);", "i = f1(2) + f0();", "p = fpr();", "*fpr() = 1;", "fpr()[0];", "f2p(1, 0);", "f2p(i, 0);", "lk(\"k\", 0);", "lk(0, 0);", "lk(ccp, vp);", "fv3(1, 0, 0);", "fv3(i, pc, 0, 1, 2);", "fv3(1, 0, p, 0);", "g3p(0, 1.0, 0);", "g3p(p, d, 0);", "g3p(0, 0, ps);", "cb2(f1, 0);", "cb2(0, fvoid);",
+        "cb2(fp, fpv);", "f2p(f2p(1, 0), 0);", "p = lk(\"k\", 0);", "i = f2p(c, a);", "f2p('c', &i);",
+        "fp = f1;", "fp = &f1;", "fp = &(f1);", "fp == &f1;", "fp = &*fp;", "fp = *&f1;", "(&f1)(1);", "{ int (*lf)(int) = &f1; lf; }", "fpv = &fvoid;", "fp(1);", "(*fp)(1);", "(**fp)(1);", "i = fp(2);", "fpv = fvoid;", "fpv();", "(*fpv)();", "fp == f1;", "fp != 0;", "fp ? 1 : 0;", "!fp;", "fp = 0;",
         "(void)f0();", "(void)fvoid();", "f0() + 1;", "f0() ? 1 : 2;", "if (f0()) ;", "f1(i ? 1 : 2);", "f1((i, 2));", "f1(sizeof(int));", "g2(f0(), fd(1));", "{ int (*lfp)(int) = f1; lfp(1); }", "{ int (*lfp)(int) = 0; lfp; }", "{ int lr = f1(1); lr; }",
         "{ double lr = fd(2); lr; }", "{ int *lr = fpr(); lr; }", "{ struct S lr = fst(); lr; }", "sizeof f0();", "sizeof(f1(1));", "fst();", "fst().arr[0];", "f1(st.m);", "f1(ps->arr[1]);", "g2(a[0], da[1]);", "f1(*p);", "f1(p[1]);", "f1(un.m);", "f1(e);", "f1(ti);", "fd(td);", "f1(tc);",
     ]
